@@ -22,7 +22,9 @@
         (`natural_length_err_float_linear`), where the `ℓᵢ` are the rationals of (1).
   (4) * **`position_lipschitz_segment_float32`**: two distances inside the SAME segment give positions that differ, per
         coordinate, by at most `|w − w'|·|x1 − x0| + 2·interpBound`; `position_arc_segment_float32`: hence by at most
-        `|d − d'| (1 + κ) + 2·interpBound` when the chord is at most `(1 + κ)` times the booked length.
+        `|d − d'| (1 + κ) + 2·interpBound` when the chord is at most `(1 + κ)` times the booked length;
+        `chord_le_booked_float`: that hypothesis holds with `κ = 2⁻²⁰` for a naturally booked segment (from (1) and the one
+        rounding of `len_k ⊕ ell`, for `len_k ≤ 2²⁷ ℓ`).
   Kernel-evaluated non-vacuity on the demo segment `(100, 200) → (107, 224)` of Props/C16IeeeCut.lean.
 -/
 import RosuModel.Props.C19
@@ -651,6 +653,67 @@ theorem natural_length_err_float_linear (path : List (Pos Float32)) (c : Float)
   have := one_add_pow_le _ u53_pos.le (path.length - 1) hn
   exact mul_le_mul_of_nonneg_right (by linarith) hS
 
+/-! ## the chord hypothesis of `position_arc_segment_float32` for naturally booked segments -/
+
+/-- over ℚ: `X² ≤ E`, `E (1 − 3·2⁻²²) ≤ ℓ²`, `ℓ ≥ 0` ⟹ `|X| ≤ ℓ (1 + 2⁻²¹)`. -/
+theorem chord_le_len_q (X E ℓ : ℚ) (hX : X ^ 2 ≤ E) (hℓ : 0 ≤ ℓ)
+    (h : E * (1 - 3 * (2 : ℚ) ^ (-22 : Int)) ≤ ℓ ^ 2) : |X| ≤ ℓ * (1 + (2 : ℚ) ^ (-21 : Int)) := by
+  by_contra hc
+  rw [not_le] at hc
+  have h0 : 0 ≤ ℓ * (1 + (2 : ℚ) ^ (-21 : Int)) := mul_nonneg hℓ (by norm_num)
+  have h1 : (ℓ * (1 + (2 : ℚ) ^ (-21 : Int))) ^ 2 < |X| ^ 2 := pow_lt_pow_left₀ hc h0 (by norm_num)
+  rw [sq_abs] at h1
+  have c : (1 : ℚ) ≤ (1 + (2 : ℚ) ^ (-21 : Int)) ^ 2 * (1 - 3 * (2 : ℚ) ^ (-22 : Int)) := by norm_num
+  have c0 : (0 : ℚ) < 1 - 3 * (2 : ℚ) ^ (-22 : Int) := by norm_num
+  have h2 : X ^ 2 * (1 - 3 * (2 : ℚ) ^ (-22 : Int)) ≤ ℓ ^ 2 := le_trans (mul_le_mul_of_nonneg_right hX c0.le) h
+  have h3 : (ℓ * (1 + (2 : ℚ) ^ (-21 : Int))) ^ 2 * (1 - 3 * (2 : ℚ) ^ (-22 : Int)) <
+      X ^ 2 * (1 - 3 * (2 : ℚ) ^ (-22 : Int)) := mul_lt_mul_of_pos_right h1 c0
+  have h4 : ℓ ^ 2 * 1 ≤ ℓ ^ 2 * ((1 + (2 : ℚ) ^ (-21 : Int)) ^ 2 * (1 - 3 * (2 : ℚ) ^ (-22 : Int))) :=
+    mul_le_mul_of_nonneg_left c (sq_nonneg ℓ)
+  have e : (ℓ * (1 + (2 : ℚ) ^ (-21 : Int))) ^ 2 * (1 - 3 * (2 : ℚ) ^ (-22 : Int)) =
+      ℓ ^ 2 * ((1 + (2 : ℚ) ^ (-21 : Int)) ^ 2 * (1 - 3 * (2 : ℚ) ^ (-22 : Int))) := by ring
+  rw [e] at h3
+  linarith
+
+/-- **booked length vs. chord on IEEE floats** (the IEEE counterpart of `C19.natLens_chord`: in exact arithmetic the
+booked length IS at least the chord): segment `a → b` as in `segment_length_err_float32`, booked on top of the length so far
+`lk` (`0 ≤ lk ≤ 2²⁷ ℓ`, finite sum): each coordinate of the chord is at most `(1 + 2⁻²⁰)` times the difference
+`(lk ⊕ ell) − lk` of the two stored cumulative lengths — the hypothesis of `position_arc_segment_float32` with `κ = 2⁻²⁰`. -/
+theorem chord_le_booked_float (a b : Pos Float32) (lk : Float)
+    (hs : ((b - a).x * (b - a).x + (b - a).y * (b - a).y).isFinite = true)
+    (hy : (Scalar.sqrt (Cvt.up ((b - a).x * (b - a).x + (b - a).y * (b - a).y) : Float) : Float).isFinite = true)
+    (hl : (Pos.length Float (b - a)).isFinite = true)
+    (hE : (2 : ℚ) ^ (-100 : Int) ≤ (toRat32 b.x - toRat32 a.x) ^ 2 + (toRat32 b.y - toRat32 a.y) ^ 2)
+    (hfs : (lk + (Cvt.up (Pos.length Float (b - a)) : Float)).isFinite = true)
+    (hl0 : 0 ≤ toRat lk) (hlℓ : toRat lk ≤ 134217728 * toRat32 (Pos.length Float (b - a))) :
+    |toRat32 b.x - toRat32 a.x| ≤
+      (toRat (lk + (Cvt.up (Pos.length Float (b - a)) : Float)) - toRat lk) * (1 + (2 : ℚ) ^ (-20 : Int)) ∧
+    |toRat32 b.y - toRat32 a.y| ≤
+      (toRat (lk + (Cvt.up (Pos.length Float (b - a)) : Float)) - toRat lk) * (1 + (2 : ℚ) ^ (-20 : Int)) := by
+  obtain ⟨hup, hℓ0, hlo, _⟩ := segment_length_err_float32 a b hs hy hl hE
+  obtain ⟨fl, fu⟩ := finite_of_add_finite _ _ hfs
+  obtain ⟨δ, hδ, hv⟩ := add_err_float lk _ fl fu hfs
+  rw [hup] at hv
+  rw [hv]
+  generalize toRat32 (Pos.length Float (b - a)) = ℓ at *
+  generalize toRat lk = L at *
+  obtain ⟨d1, d2⟩ := abs_le.mp hδ
+  have hu0 : (0 : ℚ) < (2 : ℚ) ^ (-53 : Int) := two_zpow_pos _
+  -- the difference of the stored lengths is at least `ℓ (1 − 2⁻⁵³ (2²⁷ + 1))`
+  have hD : ℓ * (1 - (2 : ℚ) ^ (-53 : Int) * 134217729) ≤ (L + ℓ) * (1 + δ) - L := by
+    have t1 : -(2 : ℚ) ^ (-53 : Int) * (L + ℓ) ≤ δ * (L + ℓ) := mul_le_mul_of_nonneg_right d1 (by linarith)
+    have t2 : (2 : ℚ) ^ (-53 : Int) * (L + ℓ) ≤ (2 : ℚ) ^ (-53 : Int) * (134217729 * ℓ) :=
+      mul_le_mul_of_nonneg_left (by linarith) hu0.le
+    nlinarith
+  have c : 1 + (2 : ℚ) ^ (-21 : Int) ≤ (1 - (2 : ℚ) ^ (-53 : Int) * 134217729) * (1 + (2 : ℚ) ^ (-20 : Int)) := by norm_num
+  have hfinal : ℓ * (1 + (2 : ℚ) ^ (-21 : Int)) ≤ ((L + ℓ) * (1 + δ) - L) * (1 + (2 : ℚ) ^ (-20 : Int)) := by
+    calc ℓ * (1 + (2 : ℚ) ^ (-21 : Int)) ≤ ℓ * ((1 - (2 : ℚ) ^ (-53 : Int) * 134217729) * (1 + (2 : ℚ) ^ (-20 : Int))) :=
+          mul_le_mul_of_nonneg_left c hℓ0
+      _ = ℓ * (1 - (2 : ℚ) ^ (-53 : Int) * 134217729) * (1 + (2 : ℚ) ^ (-20 : Int)) := by ring
+      _ ≤ _ := mul_le_mul_of_nonneg_right hD (by norm_num)
+  exact ⟨le_trans (chord_le_len_q _ _ _ (by nlinarith [sq_nonneg (toRat32 b.y - toRat32 a.y)]) hℓ0 hlo) hfinal,
+    le_trans (chord_le_len_q _ _ _ (by nlinarith [sq_nonneg (toRat32 b.x - toRat32 a.x)]) hℓ0 hlo) hfinal⟩
+
 /-! ## non-vacuity: the demo segment `(100, 200) → (107, 224)` of Props/C16IeeeCut.lean, evaluated by the kernel -/
 
 section Examples
@@ -777,6 +840,22 @@ example : |toRat (cumLens (0 : Float) [demoPP, demoPE, demoPP]).2 - 50| ≤ 4 * 
 
 /-- the total of that path, evaluated: `50`. -/
 example : (cumLens (0 : Float) [demoPP, demoPE, demoPP]).2 = 50 := by decide +kernel
+
+/-- the hypotheses of `chord_le_booked_float` hold on the demo segment booked after a length of `100`. -/
+example : |toRat32 demoPE.x - toRat32 demoPP.x| ≤
+      (toRat ((100 : Float) + (Cvt.up (Pos.length Float (demoPE - demoPP)) : Float)) - toRat (100 : Float)) *
+        (1 + (2 : ℚ) ^ (-20 : Int)) ∧
+    |toRat32 demoPE.y - toRat32 demoPP.y| ≤
+      (toRat ((100 : Float) + (Cvt.up (Pos.length Float (demoPE - demoPP)) : Float)) - toRat (100 : Float)) *
+        (1 + (2 : ℚ) ^ (-20 : Int)) := by
+  have a1 : toRat32 demoPP.x = 100 := demo_100
+  have a2 : toRat32 demoPP.y = 200 := demo_200
+  have a3 : toRat32 demoPE.x = 107 := demo_107
+  have a4 : toRat32 demoPE.y = 224 := demo_224
+  have bl := demo_bits.2.2.1
+  exact chord_le_booked_float demoPP demoPE 100 (by decide +kernel) (by decide +kernel) (by decide +kernel)
+    (by rw [a1, a2, a3, a4]; norm_num) (by decide +kernel) (by rw [toRat_100]; norm_num)
+    (by rw [toRat_100, bl, demo_25]; norm_num)
 
 end Examples
 
